@@ -14,6 +14,9 @@ DL = 'dump_load'
 
 
 def run(rep, prog, tier):
+    from .hidden import no_hidden_state
+    rep.rule('R17.state', 'no hidden state in the anchored modules: no function writes a module-level object, no caching decorator / cached property')
+    no_hidden_state(rep, 'R17.state', prog, ['Network/loaders.py', 'dump_load.py', 'Circuit/dump_load.py'])
     rep.rule('R17.sig', 'each loader-table entry passes every keyword exactly once to a factory that accepts it (explicit keywords vs keys left in **kwargs; id->name; id/nodes for components)')
     rep.rule('R17.pure', 'no loader / converter writes to the description it is given (effect analysis)')
     rep.rule('R17.formula', 'Cartesian = real + j imag; polar = abs (cos phase + j sin phase); degree phases are converted by pi/180 before use')
